@@ -157,6 +157,9 @@ def run_case(case):
         if is_async:
             sm.activate_initial_state()
         visited = set()
+        # the documented pattern `graph = DotGraphMachine(sm)`: one renderer kept for the instance and called again after the machine
+        # has moved; every rendering shows the state the machine is in when it is rendered (added after round 6, C18k)
+        kept = DotGraphMachine(sm)
         ids = [s["id"] for s in spec["states"]]
         for n, ev in enumerate([None] + case["history"]):
             if ev is not None:
@@ -170,6 +173,11 @@ def run_case(case):
             bad = check_graph(g, spec, cur, f"instance diagram in state {cur}")
             if bad:
                 return outcome(False, f"C18:{bad[0]}", bad[1])
+            bad = check_graph(kept(), spec, cur, f"instance diagram in state {cur}, rendering #{len(visited)} of one DotGraphMachine(sm) kept since construction")
+            if bad:
+                return outcome(False, f"C18:{bad[0]}", bad[1])
+            if len(visited) > 1:
+                labels.add("kept-renderer-re-rendered")
             if case.get("dot") and shutil.which("dot"):
                 try:
                     g.create_svg()
